@@ -30,7 +30,7 @@
 (***************************************************************************)
 EXTENDS ParserSM, SuffixDefs, SequencesExt, Json
 
-CONSTANTS Alpha, MaxN, Blks, MinMs, MaxMs, Wnds, Variant, EmitOps
+CONSTANTS Alpha, MaxN, Blks, MinMs, MaxMs, Wnds, Variant, EmitOps, EmitEvery
 
 VARIABLES t,       \* the whole text
           avail,   \* bytes written so far
@@ -169,5 +169,8 @@ Spec == Init /\ [][Next]_vars
 Refines == [][ev'.op = "parse" => PWhy(st, ev', {"C11"}) = {}]_vars
 StateInv == w = st.w /\ w <= avail
 
-EmitAC == EmitOps => PrintT(<<"VERIF_OPS", ToJson(ops')>>)
+(* history output: every transition in the small scopes, a random sample    *)
+(* (one in EmitEvery) in the large ones - the model check itself always     *)
+(* covers the whole scope                                                    *)
+EmitAC == EmitOps => ((EmitEvery = 1 \/ RandomElement(1..EmitEvery) = 1) => PrintT(<<"VERIF_OPS", ToJson(ops')>>))
 =============================================================================
